@@ -273,6 +273,11 @@ func ruleR11c(h *H) {
 			}
 		case *ssa.Slice:
 			return root(x.X, seen)
+		case *ssa.Extract:
+			// before / after of bytes.Cut(key, sep) derive from key
+			if c := cutCall(x); c != nil && x.Index < 2 {
+				return root(c.Call.Args[0], seen)
+			}
 		case *ssa.Phi:
 			r := ""
 			for _, e := range x.Edges {
@@ -288,11 +293,22 @@ func ruleR11c(h *H) {
 		return ""
 	}
 	rootOf := func(v ssa.Value) string { return root(v, map[ssa.Value]bool{}) }
-	isSpan := func(v ssa.Value) bool { // a[:idx]
+	isSpan := func(v ssa.Value) bool { // a[:idx], or the part before the separator returned by bytes.Cut
+		if ex, ok := v.(*ssa.Extract); ok && ex.Index == 0 && cutCall(ex) != nil {
+			return true
+		}
 		s, ok := v.(*ssa.Slice)
 		return ok && s.High != nil && s.Low == nil
 	}
 	cls := func(v ssa.Value, path []*ssa.BasicBlock) string {
+		if ex, ok := v.(*ssa.Extract); ok && ex.Index == 2 {
+			if c := cutCall(ex); c != nil {
+				if r := rootOf(c.Call.Args[0]); r != "" {
+					return "hasSlash" + r
+				}
+			}
+			return ""
+		}
 		if c, ok := v.(*ssa.Const); ok && c.Value != nil {
 			if c.Int64() == 0 {
 				return "0"
@@ -376,6 +392,24 @@ func ruleR11c(h *H) {
 			}
 			return outcome{"ret", s}, ""
 		}
+		// cmp.Compare(x, y): the sign of the order of its (classified) operands
+		if call, isCall := v.(*ssa.Call); isCall {
+			f := call.Call.StaticCallee()
+			o := f
+			if f != nil && f.Origin() != nil {
+				o = f.Origin()
+			}
+			if o != nil && o.Pkg != nil && o.Pkg.Pkg.Path() == "cmp" && o.Name() == "Compare" && len(call.Call.Args) == 2 {
+				x, y := cls(call.Call.Args[0], path), cls(call.Call.Args[1], path)
+				if ord, has := c.Order[[2]string{x, y}]; has && x != "" && y != "" {
+					return outcome{"ret", ord}, ""
+				}
+				if ord, has := c.Order[[2]string{y, x}]; has && x != "" && y != "" {
+					return outcome{"ret", -ord}, ""
+				}
+				return outcome{}, "cmp.Compare over unclassified operands"
+			}
+		}
 		n := cls(v, path)
 		if n == "" {
 			return outcome{}, "unclassified return value " + ir.Describe(v)
@@ -401,7 +435,7 @@ func ruleR11c(h *H) {
 										{"lenA", "0"}: la, {"lenB", "0"}: lb, {"idxA", "0"}: ia, {"idxB", "0"}: ib,
 										{"wholeAB", "0"}: whole, {"wholeBA", "0"}: -whole, {"spanAB", "0"}: span, {"spanBA", "0"}: -span,
 										{"lenA", "lenB"}: tail,
-									}}
+									}, Bool: map[string]bool{"hasSlashA": ia > 0, "hasSlashB": ib > 0}}
 								}
 								cases++
 								o1, w1 := eval(mk(la, lb, ia, ib, whole, span, tail))
@@ -698,4 +732,17 @@ func abbreviatedKeyCoherent(fn *ssa.Function) (bool, string) {
 		return false, "no return found"
 	}
 	return res, why
+}
+
+// cutCall: ex is a result of bytes.Cut(s, sep).
+func cutCall(ex *ssa.Extract) *ssa.Call {
+	c, ok := ex.Tuple.(*ssa.Call)
+	if !ok {
+		return nil
+	}
+	f := c.Call.StaticCallee()
+	if f == nil || f.Pkg == nil || f.Pkg.Pkg.Path() != "bytes" || f.Name() != "Cut" || len(c.Call.Args) != 2 {
+		return nil
+	}
+	return c
 }
